@@ -340,5 +340,7 @@ impl Request {
                 }
 //@endfn
 
+// ---- code this unit's claims rely on that is outside the verifier: pinned to the reference tree (rule ix of ./check) ----
+//@watch src/request.rs "impl Request" body_length
 } // verus!
 fn main() {}
